@@ -595,7 +595,7 @@ class Jvm:
     def __init__(self, sl: Slice, classes: str):
         tc = toolchain()
         cp = os.pathsep.join([classes] + sl.lib_classpath())
-        self.cmd = [tc['java'], '-Xss16m', '-Xmx512m', '-XX:+UseSerialGC', '-XX:TieredStopAtLevel=1', '-Xshare:auto',
+        self.cmd = [tc['java'], '-Xss16m', '-Xmx512m', '-XX:+UseSerialGC', '-Xshare:auto',
                     '-cp', cp, 'SliceMain']
         self.name = sl.name
         self.p = None
